@@ -315,37 +315,40 @@ fn same(a: &[u8], b: &[u8], n: usize) -> bool {
     true
 }
 
-fn container_contract<C: Mk>() {
+fn container_contract<C: Mk>(op: u8, max_len: usize) {
     let arr: [u8; N] = kani::any();
     let mut len = 0;
-    while len <= NC {
+    while len <= max_len {
         let base = C::mk(&arr[..len]);
         // slice(): the contents, in order
         assert!(base.slice().len() == len && same(base.slice(), &arr, len));
-        // push: appends exactly one element
-        let mut c = base.clone();
-        let v: u8 = kani::any();
-        PushTruncateContainer::push(&mut c, v);
-        assert!(c.slice().len() == len + 1 && same(c.slice(), &arr, len) && c.slice()[len] == v);
-        // pop: removes and returns the last element; None and unchanged on empty
-        let mut c = base.clone();
-        let r = PushTruncateContainer::pop(&mut c);
-        if len == 0 {
-            assert!(r.is_none() && c.slice().len() == 0);
-        } else {
-            assert!(r == Some(arr[len - 1]) && c.slice().len() == len - 1 && same(c.slice(), &arr, len - 1));
-        }
-        // truncate(k): keeps the first min(k, len) elements
-        let mut k = 0;
-        while k <= len + 1 {
+        if op == 0 {
+            // push: appends exactly one element
             let mut c = base.clone();
-            PushTruncateContainer::truncate(&mut c, k);
-            let keep = if k < len { k } else { len };
-            assert!(c.slice().len() == keep && same(c.slice(), &arr, keep));
-            k += 1;
-        }
-        // slice_mut: same contents; a write through it is what slice() shows afterwards; length unchanged
-        if len > 0 {
+            let v: u8 = kani::any();
+            PushTruncateContainer::push(&mut c, v);
+            assert!(c.slice().len() == len + 1 && same(c.slice(), &arr, len) && c.slice()[len] == v);
+        } else if op == 1 {
+            // pop: removes and returns the last element; None and unchanged on empty
+            let mut c = base.clone();
+            let r = PushTruncateContainer::pop(&mut c);
+            if len == 0 {
+                assert!(r.is_none() && c.slice().len() == 0);
+            } else {
+                assert!(r == Some(arr[len - 1]) && c.slice().len() == len - 1 && same(c.slice(), &arr, len - 1));
+            }
+        } else if op == 2 {
+            // truncate(k): keeps the first min(k, len) elements
+            let mut k = 0;
+            while k <= len + 1 {
+                let mut c = base.clone();
+                PushTruncateContainer::truncate(&mut c, k);
+                let keep = if k < len { k } else { len };
+                assert!(c.slice().len() == keep && same(c.slice(), &arr, keep));
+                k += 1;
+            }
+        } else if len > 0 {
+            // slice_mut: same contents; a write through it is what slice() shows afterwards; length unchanged
             let mut c = base.clone();
             let i: usize = kani::any();
             kani::assume(i < len);
@@ -364,14 +367,20 @@ fn container_contract<C: Mk>() {
     }
 }
 
-#[kani::proof]
-#[kani::unwind(@@U@@)]
-fn c15_vec_container_contract() {
-    container_contract::<Vec<u8>>()
+macro_rules! contract {
+    ($name:ident, $c:ty, $op:expr, $max:expr) => {
+        #[kani::proof]
+        #[kani::unwind(@@U@@)]
+        fn $name() {
+            container_contract::<$c>($op, $max)
+        }
+    };
 }
-
-#[kani::proof]
-#[kani::unwind(@@U@@)]
-fn c15_smallvec_container_contract() {
-    container_contract::<SmallVec<[u8; 2]>>()
-}
+contract!(c15_vec_contract_push, Vec<u8>, 0, NC);
+contract!(c15_vec_contract_pop, Vec<u8>, 1, NC);
+contract!(c15_vec_contract_truncate, Vec<u8>, 2, NC);
+contract!(c15_vec_contract_slice_mut, Vec<u8>, 3, NC);
+contract!(c15_smallvec_contract_push, SmallVec<[u8; 2]>, 0, NS);
+contract!(c15_smallvec_contract_pop, SmallVec<[u8; 2]>, 1, NS);
+contract!(c15_smallvec_contract_truncate, SmallVec<[u8; 2]>, 2, NS);
+contract!(c15_smallvec_contract_slice_mut, SmallVec<[u8; 2]>, 3, NS);
